@@ -194,7 +194,13 @@ class Dendrogram(object):
                            min_delta=min_delta)
 
         # Create a list of all points in the cube above min_value
-        keep = self.data > min_value
+        threshold = min_value
+        if (np.issubdtype(data.dtype, np.integer) and isinstance(min_value, np.floating)
+                and np.isfinite(min_value)):
+            # integers exceed a fractional threshold exactly when they exceed
+            # its floor; comparing through float64 would round 64-bit integers
+            threshold = int(np.floor(min_value))
+        keep = self.data > threshold
         data_values = self.data[keep]
         indices = np.vstack(np.where(keep)).transpose()
 
